@@ -37,6 +37,7 @@ import (
 	compact_float "github.com/kstenerud/go-compact-float"
 	compact_time "github.com/kstenerud/go-compact-time"
 	"github.com/kstenerud/go-concise-encoding/ce/events"
+	"github.com/kstenerud/go-concise-encoding/configuration"
 	"github.com/kstenerud/go-concise-encoding/cte/parser"
 	"github.com/kstenerud/go-concise-encoding/internal/common"
 )
@@ -44,13 +45,18 @@ import (
 // See Antlr grammar at https://github.com/kstenerud/go-concise-encoding/tree/master/codegen/cte
 
 func ParseDocument(document string, eventReceiver events.DataEventReceiver) error {
+	return parseDocument(document, eventReceiver, configuration.New().Rules.MaxContainerDepth)
+}
+
+func parseDocument(document string, eventReceiver events.DataEventReceiver, maxContainerDepth uint64) error {
 	errorListener := &reportingErrorListener{document: document, firstErrorIndex: -1}
 
 	is := antlr.NewInputStream(document)
 	lexer := parser.NewContextualCTELexer(is)
 	lexer.RemoveErrorListeners()
 	lexer.AddErrorListener(errorListener)
-	stream := antlr.NewCommonTokenStream(lexer, antlr.TokenDefaultChannel)
+	tokens := &depthLimitedLexer{Lexer: lexer, maxDepth: maxContainerDepth}
+	stream := antlr.NewCommonTokenStream(tokens, antlr.TokenDefaultChannel)
 
 	p := parser.NewCTEParser(stream)
 	p.RemoveErrorListeners()
@@ -67,7 +73,48 @@ func ParseDocument(document string, eventReceiver events.DataEventReceiver) erro
 		// recovery, not of the document: only report what precedes it.
 		walkUntil(listener, tree, errorListener.firstErrorIndex)
 	}
+	if tokens.tooDeep != nil {
+		return fmt.Errorf("line %v, col %v: exceeded max container depth of %d",
+			tokens.tooDeep.GetLine(), tokens.tooDeep.GetColumn(), maxContainerDepth)
+	}
 	return errorListener.Error
+}
+
+// The parser is recursive: every container level costs stack, and every
+// enclosing level repeats the error handling when a document ends early.
+// This ends the token stream at the container that would exceed the
+// configured depth, so that neither grows beyond what was configured.
+type depthLimitedLexer struct {
+	antlr.Lexer
+	depth    uint64
+	maxDepth uint64
+	tooDeep  antlr.Token
+}
+
+func (_this *depthLimitedLexer) NextToken() antlr.Token {
+	token := _this.Lexer.NextToken()
+	if _this.tooDeep != nil {
+		return _this.endOfInputAt(token)
+	}
+	switch token.GetTokenType() {
+	case parser.CTELexerLIST_BEGIN, parser.CTELexerMAP_BEGIN, parser.CTELexerNODE_BEGIN,
+		parser.CTELexerEDGE_BEGIN, parser.CTELexerRECORD_BEGIN, parser.CTELexerRECORD_TYPE_BEGIN:
+		_this.depth++
+		if _this.depth > _this.maxDepth {
+			_this.tooDeep = token
+			return _this.endOfInputAt(token)
+		}
+	case parser.CTELexerLIST_END, parser.CTELexerMAP_OR_RECORD_END, parser.CTELexerEDGE_OR_NODE_END,
+		parser.CTELexerRECORD_TYPE_END:
+		if _this.depth > 0 {
+			_this.depth--
+		}
+	}
+	return token
+}
+
+func (_this *depthLimitedLexer) endOfInputAt(token antlr.Token) antlr.Token {
+	return antlr.NewCommonToken(token.GetSource(), antlr.TokenEOF, antlr.TokenDefaultChannel, token.GetStart(), token.GetStart()-1)
 }
 
 // Walk the parse tree like antlr.ParseTreeWalker does, but stop at the first
